@@ -43,10 +43,24 @@ PROPS["C01"] = dict(
     rule="adaptive histories of 5-70 ops (put binary/text/chunked, update with/without payload, delete, commit, reopen, exit-without-commit + reopen) on a real memory; "
          "payload sizes aimed with live WAL counters to end within +-60 bytes of the log region end, to cross the 75% auto-checkpoint, and to exceed the region (growth); "
          "non-trivial = the history crossed an automatic checkpoint, a log growth, or ended a record within 48 bytes of the region end; distinct by digest of the op list",
-    level_text="placeholder",
-    level_note="placeholder",
-    trusted_base=[],
-    assumptions=[],
+    level_text="Unbounded refinement theorem over the frame-table model of the write path (Model/Store.v, on top of the log specification proved in C05): for every history and every timing of automatic checkpoints / log growth / commit-on-drop / replay, the exposed frames equal the reference table of acknowledged calls; model tied to the code by adaptive histories on real memories that cross checkpoints, growth and the log-region edge, compared op by op and table by table, plus an independent reference table in the harness.",
+    level_note="Trusted: Coq kernel + vm_compute; hand-written model of put_internal/update_frame/delete_frame/commit/apply_records/recover_wal at frame-table level (payload bytes abstracted to content tags = BLAKE3 of what the harness put; auto-checkpoint timing, lex-batch record counts and chunk counts are oracle inputs observed on the implementation and universally quantified in the theorem). Partial: updates of DocumentChunk frames are outside the theorem (side condition run_ok).",
+    trusted_base=["content identity = BLAKE3 of canonical payload, mapped to tags by the harness", "oracle inputs of each op (auto-checkpoint happened, extra log records, number of chunks) are read from the implementation through cfg(memvid_verif) hooks"],
+    assumptions=["no I/O errors", "update/delete targets are Document frames (not chunks)"],
+    allowed_axioms=[],
+)
+
+PROPS["C06"] = dict(
+    corr_module="Corr.C06",
+    streams={"hist": dict(runner="C06_run", in_t="C01_in", out_t="C01_out", shard=4, imports=["Model.Store"])},
+    n_quick=24, n_thorough=500,
+    harness_timeout=3000,
+    rule="as C01, plus vacuum and doctor (all 16 option sets, non dry-run) at random points; next_frame_id() read before every put and compared with the id the document gets; "
+         "non-trivial = the history crossed an automatic checkpoint, a log growth or ended a record within 48 bytes of the region end; distinct by digest of the op list",
+    level_text="Unbounded theorems over the same frame-table model as C01: exposed frames are numbered 0..n-1 by position in every reachable state, next_frame_id equals the number of exposed frames (hence the id the next document gets, chunks following consecutively), and position i keeps the same id/uri/content/role forever; tied to the code by histories with commits, reopen, crash+replay, vacuum and doctor, checking prediction and stability on the implementation.",
+    level_note="Trusted as C01. Vacuum and doctor are modelled by their effect on the frame table (a commit / a close+reopen that may reset the log sequence); their byte-level effects belong to C42/C21. Partial: same side condition as C01.",
+    trusted_base=["as C01"],
+    assumptions=["as C01"],
     allowed_axioms=[],
 )
 
@@ -98,5 +112,69 @@ PROPS["C39"] = dict(
                  "weights are i32 values of at most 715827882 so that six of them fit the u32 sum (idf_map = None gives 100..300)",
                  "track fields fit their Rust types and 24 + 96 * entries < 2^64 (track_wf)",
                  "track round trip: known finding outside which the theorem holds (known_class = ids not 0..n-1 in insertion order, or filter/top-term vectors not of the on-disk size, or Small entry with weight sum / flags <> 7 / length hint)"],
+    allowed_axioms=[],
+)
+
+PROPS["C32"] = dict(
+    corr_module="Corr.C32",
+    streams={
+        "parse": dict(runner="C32_parse_run", in_t="C32_parse_in", out_t="C32_parse_out", shard=150, imports=["Model.Query"]),
+        "eval": dict(runner="C32_eval_run", in_t="C32_eval_in", out_t="C32_eval_out", shard=60),
+        "nest": dict(runner="C32_nest_run", in_t="C32_nest_in", out_t="C32_nest_out", shard=30),
+    },
+    level_text="Unbounded theorems over the model of Lexer/Parser/from_word/evaluate (any query text, any is_alphanumeric and date oracle): "
+               "tokenize and parse never run out of fuel with fuel = |text| resp. 4|tokens|+4 and return Ok or InvalidQuery, and the parser's stack depth "
+               "(a computed output of the model) is at most 4*MAX_QUERY_DEPTH+4 = 260 frames for every text (MAX_QUERY_DEPTH regenerated from parser.rs). "
+               "Semantics: the evaluator reflects the reference semantics (OR = some, AND = all, NOT = negation, substring words/phrases, case-insensitive "
+               "field terms), and for every well-formed expression whose printed nesting fits under the limit, the text printed with minimal parentheses "
+               "(NOT > AND > OR, explicit or implicit AND) parses to an expression with the same match decision on every document.",
+    level_note="Trusted: Coq kernel + vm_compute; hand-written model of src/search/parser.rs and src/search/mod.rs (tied by correspondence on ~1280 texts + "
+               "400 printed ASTs x 6 documents + 270 nesting runs in child processes per quick run); char::is_alphanumeric and parse_date_value are oracles "
+               "(Section variables, instantiated by tables computed by the real implementation); the regex crate is modelled by a glob matcher (tested, not "
+               "proved against regex); dates are excluded from the printer round trip; frame sizes and the real stack limit are outside the model (the model "
+               "bounds the number of nested frames).",
+    n_quick=1200, n_thorough=20000,
+    rule="parse: random text over the token alphabet ( ) \" : AND OR NOT (both cases), known/unknown field prefixes in mixed case, quoted values, date:[a TO b] "
+         "well- and ill-formed, wildcards, punctuation, all 25 Unicode White_Space code points and near misses, non-ASCII letters/digits/marks, structured "
+         "(operators in place, balanced parentheses, one random edit) and unstructured, plus 44 fixed edge cases, 36 fixed and ~6% random texts nesting 60-68 "
+         "levels of ( / NOT / mixed around MAX_QUERY_DEPTH; non-trivial = at least two words or a parenthesis or a colon. eval: random ASTs of depth <= 5 "
+         "(OR/AND/NOT, words, phrases, wildcards, five field kinds, date ranges) printed with minimal parentheses and random surface (explicit/implicit AND, "
+         "keyword case, spacing, redundant parentheses, quoted/unquoted values), each on 6 random documents; non-trivial = operators nested under a different "
+         "operator and 1-5 of the 6 documents match. nest: 15 nesting shapes x sizes 0..60000 (dense around 32 and 64) in a child process; a death of the child "
+         "is a violation, nesting above the limit must give InvalidQuery 'query nesting too deep', at or below it must not; non-trivial = size >= 10. "
+         "Distinct by BLAKE3 of the text (+contents).",
+    trusted_base=["char::is_alphanumeric and parse_date_value are Section variables in the theorems (they hold for every instance); in the correspondence run they are finite tables produced by the real functions",
+                  "regex crate: WildcardPattern's regex is modelled as an anchored glob matcher in which * and ? do not match a newline (compared on every wildcard case, not proved)",
+                  "Parser::depth (struct field, incremented by enter(), decremented after the recursive call) is modelled as a parameter passed down: equal because every Ok path undoes its own increment and every Err aborts the parse"],
+    assumptions=["default cargo features (temporal_track off: anchor_ts is not a date candidate)",
+                 "wildcard patterns short enough that Regex::new does not hit its size limit (otherwise the code silently falls back to the regex ^$)",
+                 "the printer round trip covers expressions without date ranges (date text goes through the parse_date_value oracle only in the correspondence run)",
+                 "like the code, the model ignores tokens left after the first complete expression (e.g. 'a ) b' parses as 'a')",
+                 "evaluate() and Drop recurse over the AST; its depth is at most MAX_QUERY_DEPTH (only NOT nests in the AST beyond one level per parenthesis), exercised by the nest stream, not modelled as frames"],
+    allowed_axioms=[],
+)
+
+PROPS["C34"] = dict(
+    corr_module="Corr.C34",
+    streams={
+        "manifest": dict(runner="C34_manifest_run", in_t="C34_manifest_in", out_t="C34_manifest_out", shard=40),
+        "plan": dict(runner="C34_plan_run", in_t="C34_plan_in", out_t="C34_plan_out", shard=6),
+        "structured": dict(runner="C34_struct_run", in_t="C34_struct_in", out_t="C34_struct_out", shard=6),
+    },
+    level_text="Unstructured half: unbounded theorems over the model of build_chunk_manifest/choose_chunk_boundary/slice_text_range/plan_naive_chunks/plan_text_chunks (any text over any character type, any three character tests, any chunk size > 0): the loop terminates without panic, the ranges are contiguous from 0 to the character count and non-empty, the chunk texts are non-empty and concatenate to the text, every range is at most chunk size + slack long; model tied to the code by differential runs comparing exact ranges and chunk strings. Structured half PARTIAL: unbounded theorem over the model of StructuralChunker::chunk (any element list, any max_chars): every rendered string handed to the chunker is inside some chunk and table splitting loses no row; the coverage clause as stated is refuted (8 known classes) and proved outside the known class; the detector is an oracle.",
+    level_note="Trusted: Coq kernel + vm_compute; hand-written models of src/memvid/chunks.rs and src/structure/chunker.rs (tied by correspondence on exact ranges / chunk texts); char::is_whitespace modelled as the Unicode White_Space code point set; normalize_text, detect_structure and the format() renderers are oracles (their outputs are inputs of the models); harness and translator. Structured half is PARTIAL: no model of detect_structure, so the relation between the lines of the normalized text and the elements is an input (checked per case by the harness); 'no chunk is empty' for structured plans is checked by the oracle on the implementation only.",
+    n_quick=320, n_thorough=6000,
+    rule="manifest: raw texts of 0-1900 characters over {newline, .!?, 20 kinds of Unicode whitespace, look-alike non-boundaries, letters/multi-byte} in 9 styles "
+         "(mixed, no newline, whitespace only, no boundary at all, terminal-dense, newline-dense, sparse, prose, marks planted at the edges of the first window) with explicit "
+         "chunk sizes 0..420 and 0/len-1/len/len+1/usize::MAX; plan: prose of 0-11000 characters through plan_text_chunks (newline density none..every 20 chars, CRLF, tabs, "
+         "double spaces, whitespace-free runs longer than chunk+slack, no terminals, exact normalized lengths 2398..2402/2640/2641); structured: markdown documents with tables of 0-230 rows, "
+         "code fences of 1-200 lines, lists, headings, rules, one witness per known class, documents built to sit on the chunker's comparisons (table of exactly 1200/1201 chars, "
+         "paragraph/list overflow at 1200/1201, rows-per-chunk divisor, pending heading kept/dropped); non-trivial = a plan with at least two ranges/chunks was returned; distinct by BLAKE3 of the text and chunk size",
+    trusted_base=["normalize_text (NFKC, whitespace collapsing) is an oracle: the plan model takes its output",
+                  "detect_structure (regex heuristics) and heading/list/code/table format() are oracles: has_structure and the element list with rendered strings are inputs",
+                  "char::is_whitespace = Unicode White_Space set written out in Model/Chunks.v (the theorems hold for any predicate)"],
+    assumptions=["start + chunk_chars and target + slack do not overflow usize (chunk_chars < total <= text length whenever the loop runs)",
+                 "structured half: 'a line appears in a chunk' is read as: the trimmed line is a substring of some chunk text",
+                 "structured half: chunk char offsets (ranges of a structured plan) are not modelled; the property does not mention them"],
     allowed_axioms=[],
 )
